@@ -2779,6 +2779,28 @@ fn gen_c16(rng: &mut Rng, ops: &mut Vec<String>, stats: &mut Stats) {
             }
         }
     }
+    if rng.chance(1, 3) {
+        // the farthest bucket is driven to fullness (its head disconnected), one more connected node waits
+        // in its pending slot; then newer records that would move a node into the saturated /24 are added
+        // through the API - for members and for the waiting node alike the table's limit applies
+        stats.bump("gen.c16.service.newer-record-for-the-waiting-node");
+        let mut cands: Vec<u64> = Vec::new();
+        for _ in 0..21 {
+            if let Some(sd) = mine(rng.below(1 << 30), |id| dist(&local_id, id) == 256) {
+                cands.push(sd);
+            }
+        }
+        for (i, sd) in cands.iter().enumerate() {
+            if i == 0 {
+                ops.push(format!("sadd A k{}:1:4:0", sd));
+            } else {
+                ops.push(format!("sest A k{}:1:4:0 = o", sd));
+            }
+        }
+        for sd in cands.iter().rev() {
+            ops.push(format!("sadd A k{}:2:s:0", sd));
+        }
+    }
     ops.push("stable A".into());
 }
 
